@@ -40,7 +40,7 @@ class Pipeline(Machine):
     def reach_floor(self, merged, prop, tier):
         ex = merged.get("extra", {})
         key = "refs_checked" if prop == "C05" else "roundtrips_checked"
-        if ex.get(key, 0) < (200 if tier == "quick" else 3000):
+        if ex.get(key, 0) < ((100 if prop == "C03" else 200) if tier == "quick" else 3000):
             return f"only {ex.get(key, 0)} {key}"
         if ex.get("descriptions", 0) and ex.get("descriptions_rejected", 0) > 0.2 * ex["descriptions"]:
             return "more than 20% of generated descriptions were rejected by create"
